@@ -1,6 +1,8 @@
 package rules
 
 import (
+	"go/token"
+	"go/constant"
 	"fmt"
 	"go/ast"
 	"go/types"
@@ -49,6 +51,177 @@ func runC05(c *core.Ctx, r *core.Reporter) {
 	c.BuildSSA()
 	c05operand(c, r)
 	c05norm(c, r)
+	c05conv(c, r)
+}
+
+// c05conv: machine integers enter math/big through value-preserving conversions.
+func c05conv(c *core.Ctx, r *core.Reporter) {
+	const rule = "C05.conv"
+	r.Rule(rule, "every machine integer handed to math/big (NewInt, SetInt64, SetUint64, NewRat, SetFrac64, ...) reaches it through value-preserving conversions only: widening, or a same-width change of signedness that a dominating comparison shows to be harmless (operand >= 0); uint64(negative fixnum) or int64(large unsigned) silently changes the number", 40)
+	an := lenflow.New(c)
+	type ik struct {
+		signed bool
+		bits   int
+	}
+	kindOf := func(t types.Type) (ik, bool) {
+		bt, ok := t.Underlying().(*types.Basic)
+		if !ok {
+			return ik{}, false
+		}
+		switch bt.Kind() {
+		case types.Int, types.Int64:
+			return ik{true, 64}, true
+		case types.Int32:
+			return ik{true, 32}, true
+		case types.Int16:
+			return ik{true, 16}, true
+		case types.Int8:
+			return ik{true, 8}, true
+		case types.Uint, types.Uint64, types.Uintptr:
+			return ik{false, 64}, true
+		case types.Uint32:
+			return ik{false, 32}, true
+		case types.Uint16:
+			return ik{false, 16}, true
+		case types.Uint8:
+			return ik{false, 8}, true
+		}
+		return ik{}, false
+	}
+	guards := map[*ssa.Function]*core.Guards{}
+	seenKey := map[string]int{}
+	for _, fn := range c.ModuleFuncs() {
+		if takesTestingT(fn) {
+			continue
+		}
+		for _, b := range fn.Blocks {
+			for _, in := range b.Instrs {
+				call, ok := in.(*ssa.Call)
+				if !ok {
+					continue
+				}
+				g := call.Call.StaticCallee()
+				if g == nil || g.Pkg == nil || g.Pkg.Pkg.Path() != "math/big" || !bigValueEntry[g.Name()] {
+					continue
+				}
+				for ai, arg := range call.Call.Args {
+					if _, isInt := kindOf(arg.Type()); !isInt {
+						continue
+					}
+					if g.Signature.Recv() != nil && ai == 0 {
+						continue
+					}
+					// walk the conversion chain
+					bad := ""
+					v := arg
+					for depth := 0; depth < 6; depth++ {
+						cv, ok := v.(*ssa.Convert)
+						if !ok {
+							break
+						}
+						from, ok1 := kindOf(cv.X.Type())
+						to, ok2 := kindOf(cv.Type())
+						if !ok1 || !ok2 {
+							break
+						}
+						lossless := (from.signed == to.signed && to.bits >= from.bits) || (!from.signed && to.signed && to.bits > from.bits)
+						if !lossless {
+							okGuard := false
+							if from.signed && !to.signed && to.bits >= from.bits {
+								gs := guards[fn]
+								if gs == nil {
+									gs = core.ComputeGuards(fn, an.NoReturn)
+									guards[fn] = gs
+								}
+								if lb, has := lowerBoundFromFacts(cv.X, gs.Facts(cv.Block())); has && lb >= 0 {
+									okGuard = true
+								}
+								if k, isK := cv.X.(*ssa.Const); isK && k.Value != nil && constant.Sign(k.Value) >= 0 {
+									okGuard = true
+								}
+							}
+							if !okGuard {
+								bad = fmt.Sprintf("%s(%s) at %s is not value preserving and no dominating test bounds the operand", cv.Type(), cv.X.Type(), c.Pos(cv.Pos()))
+								break
+							}
+						}
+						v = cv.X
+					}
+					key := fmt.Sprintf("%s|big.%s arg%d", core.SSAName(fn), core.SSAName(g), ai)
+					seenKey[key]++
+					if n := seenKey[key]; n > 1 {
+						key = fmt.Sprintf("%s#%d", key, n)
+					}
+					r.Decide(bad == "", rule, key, c.Pos(call.Pos()), orOKs(bad, "conversions on the way are value preserving"))
+				}
+			}
+		}
+	}
+}
+
+// bigValueEntry: the math/big functions and methods whose integer parameters are the number itself
+// (as opposed to a base, a bit index or a precision).
+var bigValueEntry = map[string]bool{"NewInt": true, "SetInt64": true, "SetUint64": true, "NewRat": true, "SetFrac64": true}
+
+// lowerBoundFromFacts: the largest C with v >= C implied by the comparisons that hold.
+func lowerBoundFromFacts(v ssa.Value, facts map[core.EdgeFact]bool) (int64, bool) {
+	var best int64
+	found := false
+	for f := range facts {
+		bo, ok := f.If.Cond.(*ssa.BinOp)
+		if !ok {
+			continue
+		}
+		op := bo.Op
+		var kc *ssa.Const
+		switch {
+		case bo.X == v:
+			kc, _ = bo.Y.(*ssa.Const)
+		case bo.Y == v:
+			kc, _ = bo.X.(*ssa.Const)
+			switch op {
+			case token.LSS:
+				op = token.GTR
+			case token.LEQ:
+				op = token.GEQ
+			case token.GTR:
+				op = token.LSS
+			case token.GEQ:
+				op = token.LEQ
+			}
+		}
+		if kc == nil || kc.Value == nil || kc.Value.Kind() != constant.Int {
+			continue
+		}
+		cv, _ := constant.Int64Val(kc.Value)
+		if !f.Branch {
+			switch op {
+			case token.LSS:
+				op = token.GEQ
+			case token.LEQ:
+				op = token.GTR
+			case token.GTR:
+				op = token.LEQ
+			case token.GEQ:
+				op = token.LSS
+			default:
+				continue
+			}
+		}
+		var lb int64
+		switch op {
+		case token.GEQ, token.EQL:
+			lb = cv
+		case token.GTR:
+			lb = cv + 1
+		default:
+			continue
+		}
+		if !found || lb > best {
+			best, found = lb, true
+		}
+	}
+	return best, found
 }
 
 type callSiteIndex struct {
